@@ -278,6 +278,20 @@ NAME_KV1_LEAF: Final = 'DmElementLeaf'
 NAME_KV1_ROOT: Final = 'DmElementRoot'
 
 
+def _kv2_type_is_keyword(elem_type: str) -> bool:
+    """Check if this element type would be read as an attribute type in KeyValues2 files."""
+    folded = elem_type.casefold()
+    if folded == 'elementid':
+        return True
+    if folded.endswith('_array'):
+        folded = folded[:-6]
+    try:
+        ValueType(folded)
+    except ValueError:
+        return False
+    return True
+
+
 def parse_vector(text: str, count: int) -> list[float]:
     """Parse a space-delimited vector."""
     parts = text.split()
@@ -1852,6 +1866,11 @@ class Element(Mapping[str, Attribute]):
             roots = set(use_count)
         else:
             roots = {uuid for uuid, count in use_count.items() if count > 1}
+            # An inline element is written as its type name followed by a block. If that name is
+            # one of the attribute type keywords, the parser takes the block's header for a typed
+            # attribute (or, inside an array, for an "element" UUID reference). The type of a
+            # toplevel element cannot be confused, so write those there and reference them.
+            roots.update(elem.uuid for elem in elements if _kv2_type_is_keyword(elem.type))
         # We're always a root!
         roots.add(self.uuid)
 
